@@ -176,6 +176,19 @@ Eval(c, M, s, w) ==
          [] s[2] = "Possibility" -> GSome(c.mc, {Eval(c, M, s[3][1], u) : u \in Succ(M, w)})
          [] OTHER -> Tab(c.base, s[2], [i \in 1..Len(s[3]) |-> Eval(c, M, s[3][i], w)])
 
+\* does the spec evaluation of s at w combine an N with a B anywhere (FDE family)?
+RECURSIVE MixesNB(_, _, _, _)
+MixesNB(L, M, s, w) ==
+  IF Opaque(L, s) \/ s[1] \in {"A", "P"} THEN FALSE
+  ELSE IF s[1] = "Q"
+       THEN LET vs == {Eval(L, M, Sub(s[4], M.C[k], s[3]), w) : k \in 1..Len(M.C)}
+            IN ("N" \in vs /\ "B" \in vs) \/ \E k \in 1..Len(M.C) : MixesNB(L, M, Sub(s[4], M.C[k], s[3]), w)
+  ELSE IF s[2] \in ModalOps
+       THEN LET vs == {Eval(L, M, s[3][1], u) : u \in Succ(M, w)}
+            IN ("N" \in vs /\ "B" \in vs) \/ \E u \in Succ(M, w) : MixesNB(L, M, s[3][1], u)
+  ELSE LET vs == {Eval(L, M, s[3][k], w) : k \in 1..Len(s[3])}
+       IN ("N" \in vs /\ "B" \in vs) \/ \E k \in 1..Len(s[3]) : MixesNB(L, M, s[3][k], w)
+
 (* node satisfaction; node record of DESIGN.md 2.2 *)
 SatN(c, M, n) ==
   LET v == Eval(c, M, n.s, IF n.w < 0 THEN 0 ELSE n.w)
